@@ -22,7 +22,7 @@ COMPONENTS = {'real': ['ikesa.py', 'ikesacontroller.py (main_loop)', 'xfrm.py', 
               'stub': ['XFRM kernel model (SAD/ledger, errno injection)', 'clock', 'select', 'sockets', 'randomness']}
 ASSUMPTIONS = ['tracked CHILD_SAs are read from the daemon (IkeSaController.ike_sas[*].child_sas), the kernel side from the model '
                'ledger (acknowledged NEWSA minus DELSA/FLUSHSA; DELSA answered ESRCH counts as deleted)']
-EXPECT_REACH = ['invariant_checks_nonempty', 'kern.err', 'rekey_ike_handover', 'child_deleted', 'child_rekeyed', 'ike_sa_removed_with_children']
+EXPECT_REACH = ['invariant_checks_nonempty', 'kern.err', 'byz.bad_reply', 'rekey_ike_handover', 'child_deleted', 'child_rekeyed', 'ike_sa_removed_with_children']
 
 
 def generate(seed, tier):
@@ -41,6 +41,10 @@ def generate(seed, tier):
         sc['ops'].append({'t': t0, 'op': 'crash', 'node': who, 'k': r.randint(0, 6)})
         sc['ops'].append({'t': round(t0 + r.choice([0.5, 3, 15]), 3), 'op': 'restart', 'node': who})
     sc['ops'].sort(key=lambda x: x['t'])
+    if r.random() < 0.25:
+        # Byzantine peer batch: replies a conforming peer may send but this implementation never does, and defective replies
+        sc['byz'] = {'kind': 'bad_reply', 'seed': r.randrange(2 ** 31)}
+        sc['meta']['byz'] = 'bad_reply'
     if tier == 'thorough' and seed % 10 == 0:
         sc['enumerate_kerr'] = 12
     return sc
@@ -53,8 +57,21 @@ def _run_once(scenario):
         ctx['wire'] = WireLog(w)
         ctx['cov'] = workload.Coverage(w)
         ctx['inv'] = LedgerInvariant(w, PROP)
+        _byz(w, ctx, scenario)
     w = execute(scenario, setup, ctx)
     return w, ctx
+
+
+def _byz(w, ctx, scenario):
+    ctx['byz_reach'] = {}
+    if scenario.get('byz'):
+        from sim import byz
+        from sim.interpose import Interposer
+        from sim.wiretap import Wiretap
+        tap = ctx['tap'] = Wiretap(w, check_reencode=False)
+        ip = ctx['ip'] = Interposer(w, tap)
+        rule, _ = byz.make(scenario['byz']['kind'], scenario['byz']['seed'], w, ip, tap, ctx['byz_reach'])
+        ip.rules.append(rule)
 
 
 def run(scenario):
@@ -80,6 +97,7 @@ def run(scenario):
     for k, v in w.fault_counts.items():
         if k.startswith('kern.err'):
             reach['kern.err'] = reach.get('kern.err', 0) + v
+    reach.update(ctx.get('byz_reach', {}))
     violations = list(w.violations)
     enum_runs = 0
     if scenario.get('enumerate_kerr') and not violations:
@@ -127,6 +145,7 @@ def _run_once_inject(scenario):
         ctx['wire'] = WireLog(w)
         ctx['cov'] = workload.Coverage(w)
         ctx['inv'] = LedgerInvariant(w, PROP)
+        _byz(w, ctx, scenario)
         for name, m in scenario.get('kernel_inject', {}).items():
             for i, e in m.items():
                 w.nodes[name].kernel.inject[int(i)] = ERRNOS[e]
